@@ -170,7 +170,7 @@ class ComposedNode(ConfigNode):
                     keep = True
                 if isinstance(child, ComposedNode): #not child.ayns.is_leaf:
                     possibly_new_child = child.ayns.filter_nodes(condition, prefix=child_path, removed=removed)
-                    keep = keep or bool(possibly_new_child)
+                    keep = keep or possibly_new_child.ayns.children_count() > 0
                     if keep and possibly_new_child is not child:
                         to_re_set.append(name, possibly_new_child)
 
